@@ -264,6 +264,15 @@ def run(program, rep, tier):
                                          'C03.deref'),
                rename=lambda r: 'C20.once',
                why='not every listener of the transform is notified')
+    # ... registered under the events the LISTENER maps (its own __events__,
+    # which an instance may extend or restrict), with what removal looks for
+    rep.borrow(c03.check_tables, program, rep,
+               keep=lambda o: o.rule == 'C03.tables'
+               and o.site.endswith('add_handler'),
+               rename=lambda r: 'C20.once',
+               why='a listener of the transform is registered for other '
+               'events than the ones it maps: it is not told about an '
+               'assignment it listens to, or told about others')
     from rules import c04
     rep.borrow(c04.check_release, program, rep,
                keep=lambda o: o.rule.startswith('C04.'),
